@@ -82,6 +82,7 @@ void COLssInit (CO_LSS *lss, CO_NODE *node)
     lss->CfgBaudrate = 0;
     lss->CfgNodeId   = 0;
     lss->Step        = CO_LSS_SEL_VENDOR;
+    lss->Switch      = 0;
 
     for (subidx = 1; subidx <= 4; subidx++) {
         obj = CODictFind(&node->Dict, CO_DEV(0x1018, subidx));
@@ -215,6 +216,7 @@ int16_t COLssSwitchStateSelective_Serial(CO_LSS *lss, CO_IF_FRM *frm)
         CO_SET_BYTE (frm, CO_LSS_RES_SEL_OK, 0);
         CO_SET_ID(frm, CO_LSS_TX_ID);
         lss->Mode = CO_LSS_CONF;
+        lss->Step = CO_LSS_SEL_VENDOR;
         result    = 1;
     }
 
@@ -227,15 +229,15 @@ static void CO_LssActivateBitTiming_SwitchDelay (void *arg)
 
     lss = (CO_LSS *)arg;
 
-    if (lss->Step == 1) {
+    if (lss->Switch == 1) {
         COIfCanInit(&lss->Node->If, lss->Node);
         COIfCanEnable(&lss->Node->If, lss->CfgBaudrate);
-        lss->Step = 2;
+        lss->Switch = 2;
     } else {
         CONmtSetMode(&lss->Node->Nmt, CO_PREOP);
         COTmrDelete(&lss->Node->Tmr, lss->Tmr);
-        lss->Tmr  = -1;
-        lss->Step = 0;
+        lss->Tmr    = -1;
+        lss->Switch = 0;
     }
 }
 
@@ -251,7 +253,7 @@ int16_t COLssActivateBitTiming(CO_LSS *lss, CO_IF_FRM *frm)
     COIfCanClose(&lss->Node->If);
     tmr       = &lss->Node->Tmr;
     ticks     = COTmrGetTicks(tmr, delay, CO_TMR_UNIT_1MS);
-    lss->Step = 1;
+    lss->Switch = 1;
     lss->Tmr  = COTmrCreate(tmr,
                 0,
                 ticks,
@@ -485,7 +487,8 @@ int16_t COLssIdentifyRemoteSlave_SerMax(CO_LSS *lss, CO_IF_FRM *frm)
         CO_SET_LONG(frm, 0L, 4);
         CO_SET_BYTE(frm, CO_LSS_RES_SLAVE, 0);
         CO_SET_ID(frm, CO_LSS_TX_ID);
-        result = 1;
+        lss->Step = CO_LSS_REM_VENDOR;
+        result    = 1;
     }
     return result;
 }
